@@ -425,7 +425,7 @@ struct Digit {
                     }
                 }
                 ///////////////////////////////////////////////////////////
-                if (number.Natural != 0) {
+                {
                     const SizeT32 e_p10_power =
                         (SizeT32(tmp_offset - start_offset) - SizeT32(!fraction_only && has_dot));
 
@@ -516,15 +516,18 @@ struct Digit {
                         is_negative_exp = true;
                     }
 
-                    if ((is_negative_exp && (exponent > e_p10_power) && ((exponent - e_p10_power) > SizeT32{324})) ||
-                        (!is_negative_exp && ((exponent + e_p10_power) > SizeT32{309}))) {
-                        return QNumberType::NotANumber;
-                    }
+                    if (number.Natural != 0) {
+                        if ((is_negative_exp && (exponent > e_p10_power) &&
+                             ((exponent - e_p10_power) > SizeT32{324})) ||
+                            (!is_negative_exp && ((exponent + e_p10_power) > SizeT32{309}))) {
+                            return QNumberType::NotANumber;
+                        }
 
-                    if (is_negative_exp) {
-                        powerOfNegativeTen(number.Natural, exponent);
-                    } else {
-                        powerOfPositiveTen(number.Natural, exponent);
+                        if (is_negative_exp) {
+                            powerOfNegativeTen(number.Natural, exponent);
+                        } else {
+                            powerOfPositiveTen(number.Natural, exponent);
+                        }
                     }
                 }
                 ///////////////////////////////////////
